@@ -137,6 +137,25 @@ func EventType(event any) string {
 	return reflect.TypeOf(event).String()
 }
 
+// eventTypeNameOf returns the name EventType reports for values of type T.
+// APIs that select stored events by Go type (typed replay subscriptions and
+// typed upcasters) must use it, so that they match the name under which the
+// event was persisted - including names provided through TypeNamer.
+func eventTypeNameOf[T any]() string {
+	t := reflect.TypeOf((*T)(nil)).Elem()
+	switch t.Kind() {
+	case reflect.Interface:
+		// there is no value of an interface type to ask for its name
+		return t.String()
+	case reflect.Ptr:
+		// a nil pointer could not be asked (value-receiver methods would
+		// dereference it): use a pointer to a zero element instead
+		return EventType(reflect.New(t.Elem()).Interface())
+	default:
+		return EventType(reflect.Zero(t).Interface())
+	}
+}
+
 // Observability is an optional interface for metrics and tracing.
 // Implementations can track event publishing, handler execution, and errors.
 //
